@@ -11,9 +11,24 @@ TRUSTED = ["L1 model coq/*.v (hand-written, tied by correspondence)", "checks/sb
 ASSUMES = ["allocation never fails", "counts and byte sizes below 2^31", "every slice has as many columns as the metadata"]
 
 
+# same-named column metadata whose defaults are equal as numbers and differ as bits: the writer must refuse them like any other
+# differing defaults (signed zeros; NaNs that differ in sign or payload), float and double
+FLOAT_TWINS = [(4, bytes.fromhex("00000000"), bytes.fromhex("00000080")), (4, bytes.fromhex("0000c07f"), bytes.fromhex("0100c07f")),
+               (4, bytes.fromhex("0000c07f"), bytes.fromhex("0000c0ff")),
+               (5, bytes.fromhex("0000000000000000"), bytes.fromhex("0000000000000080")),
+               (5, bytes.fromhex("000000000000f87f"), bytes.fromhex("010000000000f87f")), (5, bytes.fromhex("000000000000f87f"), bytes.fromhex("000000000000f8ff"))]
+
+
 def cases(rng, tier):
     n = {"quick": 260, "thorough": 6000, "search": 300}[tier]
     maxrows = {"quick": 60, "thorough": 600, "search": 40}[tier]
+    for j, (ety, d1, d2) in enumerate(FLOAT_TWINS):
+        t = G.rand_table(rng, ncols=rng.choice([2, 3]), nslices=1, maxrows=4)
+        a, b = rng.sample(range(len(t["cols"])), 2)
+        t["cols"][a]["extra"].append((b"Clash", ety, d1, d1))
+        t["cols"][b]["extra"].append((b"Clash", ety, d2, d2))
+        t["conflict"] = "dflt-float"
+        yield roundtrip_case("ft%d" % j, t, rng)
     for i in range(n):
         k = rng.random()
         if k < 0.15:
